@@ -204,9 +204,13 @@ def inputs(tier):
     I.append({
         "name": "nested+links",
         "files": {"m.c": '#include "inc/h.h"\nint m;\n#ifdef A\nint ma;\n#endif\n#ifdef B\nint mb;\n#endif\n', "inc/h.h": "int h;\n#ifdef A\nint ha;\n#endif\n",
-                  "inc/k.h": "int k;\n", "s/p.c": "int p;\n", "s/q.c": "int q;\n", "s/t/r.c": "int r;\n", "s/t/u.c": "int u;\n", "unused.c": "int un;\n"},
+                  "inc/k.h": "int k;\n", "s/p.c": "int p;\n", "s/q.c": "int q;\n", "s/t/r.c": "int r;\n", "s/t/u.c": "int u;\n", "unused.c": "int un;\n",
+                  # the same header name in two include directories which two platforms search in opposite order
+                  "ia/settings.h": "#define FROM_A\nint sa;\n", "ib/settings.h": "#define FROM_B\nint sb;\nint sb2;\n",
+                  "sel.c": "#include <settings.h>\n#ifdef FROM_A\nint fa;\n#endif\n#ifdef FROM_B\nint fb;\n#endif\n"},
         "links": {"s/lq.c": "q.c"},
-        "platforms": {"pa": [{"file": "m.c", "args": ["-DA"]}, {"file": "s/p.c", "args": []}], "pb": [{"file": "m.c", "args": ["-DB"]}, {"file": "s/q.c", "args": []}],
+        "platforms": {"pa": [{"file": "m.c", "args": ["-DA"]}, {"file": "s/p.c", "args": []}, {"file": "sel.c", "args": ["-Iia", "-Iib"]}],
+                      "pb": [{"file": "m.c", "args": ["-DB"]}, {"file": "s/q.c", "args": []}, {"file": "sel.c", "args": ["-Iib", "-Iia"]}],
                       "pc": [{"file": "s/t/r.c", "args": []}], "pd": [{"file": "s/t/u.c", "args": []}, {"file": "m.c", "args": []}]},
     })
     I.append({
